@@ -186,7 +186,14 @@ U1Deep == UNION {{[defs |-> [base |-> b], properties |-> [a |-> [ref |-> LocalRe
                   [defs |-> [base |-> b], additionalProperties |-> [ref |-> LocalRef(PtrDefs("base"))] @@ u],
                   [defs |-> [base |-> b, mid |-> [ref |-> LocalRef(PtrDefs("base"))] @@ u], properties |-> [a |-> [ref |-> LocalRef(PtrDefs("mid"))]]]}
                  : u \in UnevP, b \in U1DeepBases}
-U1Schemas(z) == U1Deep \cup {u @@ x : u \in UnevP, x \in IF K >= 2 THEN UNION {U1Inplace(0), Pairs(U1Inplace(0)), U1Nested(0), U1Child} ELSE UNION {U1Inplace(0), U1Nested(0), U1Child}}
+\* one definition reached by $ref TWICE for the same instance (cousins, or a first use inside a branch that then
+\* fails): every application hands ITS annotations to ITS referring schema
+U1Twice == UNION {{[defs |-> [base |-> b], allOf |-> <<[ref |-> LocalRef(PtrDefs("base"))] @@ u, [ref |-> LocalRef(PtrDefs("base"))] @@ u>>],
+                   [defs |-> [base |-> b], anyOf |-> <<[ref |-> LocalRef(PtrDefs("base")), required |-> <<"zz">>], [ref |-> LocalRef(PtrDefs("base"))]>>] @@ u,
+                   [defs |-> [base |-> b], allOf |-> <<[ref |-> LocalRef(PtrDefs("base"))]>>, ref |-> LocalRef(PtrDefs("base"))] @@ u,
+                   [defs |-> [base |-> b], if |-> [ref |-> LocalRef(PtrDefs("base"))], then |-> [ref |-> LocalRef(PtrDefs("base"))] @@ u]}
+                  : u \in UnevP, b \in {PA, PB, [allOf |-> <<PA, PB>>], [properties |-> [a |-> TrueS, b |-> TrueS]]}}
+U1Schemas(z) == U1Deep \cup U1Twice \cup {u @@ x : u \in UnevP, x \in IF K >= 2 THEN UNION {U1Inplace(0), Pairs(U1Inplace(0)), U1Nested(0), U1Child} ELSE UNION {U1Inplace(0), U1Nested(0), U1Child}}
 U1Vals == {Obj(m) : m \in MapsOf({"a", "b", "c"}, {Num(R_1), Str("a")}, 0, 3)}
           \cup {Obj([a |-> Obj([b |-> Num(R_1), c |-> Num(R_1)]), b |-> Num(R_1)]), Num(R_1)}
           \cup {Obj([a |-> x]) : x \in {Obj([b |-> Num(R_1)]), Obj([b |-> Str("a")]), EmptyObj, Obj([c |-> Num(R_1)]), Obj([b |-> Num(R_1), c |-> Str("a")])}}
@@ -322,10 +329,12 @@ HopToM(from, j, hk, rem) ==
          [] hk = "allOf" -> [allOf |-> <<[ref |-> rr(FragPtr(base))]>>]
          [] hk = "inner" -> [ref |-> rr(FragPtr(base \o <<SegN("defs", "e")>>))]
   ELSE HopTo(j, hk)
+\* (the resource-relative form also carries a sibling evaluated AFTER the reference: it applies whichever way
+\* the reference is bound - dynamically, lexically, or by the fall-back to the lexical target)
 DyFinal(fin) ==
   CASE fin.k = "frag" -> [dynamicRef |-> LocalRef(FragName("n"))]
     [] fin.k = "ptr"  -> [dynamicRef |-> LocalRef(FragPtr(<<SegN("defs", "t")>>))]
-    [] fin.k = "res"  -> [dynamicRef |-> ResRef(fin.j, FragName("n"))]
+    [] fin.k = "res"  -> [dynamicRef |-> ResRef(fin.j, FragName("n")), not |-> [const |-> Num(Mark[fin.j + 1])]]
 DyFinals == {[k |-> "frag"], [k |-> "ptr"]} \cup {[k |-> "res", j |-> j] : j \in 0..K}
 \* chains: sequences of distinct resources of length 1..K
 DyChains == {c \in UNION {[1..n -> 1..K] : n \in 1..K} : \A i, j \in DOMAIN c : i # j => c[i] # c[j]}
